@@ -39,7 +39,8 @@ def main():
     dest = os.path.join(VERIF, "seeded", name)
     os.makedirs(dest, exist_ok=True)
     for f in ("patch.diff", "demo.py", "meta.json"):
-        shutil.copy(os.path.join(seed_dir, f), os.path.join(dest, f))
+        if os.path.abspath(seed_dir) != os.path.abspath(dest):
+            shutil.copy(os.path.join(seed_dir, f), os.path.join(dest, f))
     if not os.path.isdir(WT):
         sh("git -C /repo worktree add -q --detach %s HEAD" % WT)
     sh("git -C %s checkout -q --detach %s && git -C %s checkout -- . && git -C %s clean -fdq"
